@@ -23,6 +23,7 @@ func checkC17(c *Ctx) {
 	c.rule("LOCK-pairing", "mutex acquire/release paired on every path", 30)
 	ea.runE1E2E4("ERR-E1-dropped", "ERR-E2-swallowed", "ERR-E4-lossy-callee", nil)
 	ea.runE3("ERR-E3-iterator", nil)
+	ea.runE3Strict("ERR-E3-iterator", l.Func("", "*nodeDB.traverseOrphansWithRootkeyCache"))
 	ea.runE5("ERR-E5-sticky")
 	ea.runE6("ERR-E6-use-before-check", nil)
 	scope := func(fn *ssa.Function) bool {
